@@ -15,7 +15,7 @@ MODULES = {
     "C07": ["NSG.Properties.C07", "NSG.Properties.C01Barrier", "NSG.Properties.GenAtomic", "NSG.Properties.C04Budget"],
     "C09": ["NSG.Properties.C09", "NSG.Properties.GenC09"],
     "C10": ["NSG.Properties.C10", "NSG.Properties.GenC10", "NSG.Properties.GenAtomic", "NSG.Properties.SystemMono"],
-    "C16": ["NSG.Properties.C16"],
+    "C16": ["NSG.Properties.C16", "NSG.Properties.C16Identity"],
     "C18": ["NSG.Properties.C18"],
 }
 PROFILES = {
